@@ -23,7 +23,7 @@ open CV.Val (lookup keys KVs)
 theorem topPerm_of_perm {d d' : KVs} (hn : (keys d).Nodup) (hp : d'.Perm d) : TopPerm d' d := TopPerm.of_perm hn hp
 
 /-- **whole stage**: for two models that differ only in the order of the top-level mapping and of the `services`
-mapping, `Normalize` panics at the same site or returns models that again differ only in those orders -/
+mapping, `Normalize` fails with the same error class (or panics at the same site) or returns models that again differ only in those orders -/
 theorem normalize_stage_perm (clean : String → String) (env : CV.C11.Env) {d d' : KVs} (h : TopPerm d' d) :
     NormRel (CV.C11.normalize clean env d') (CV.C11.normalize clean env d) := normalize_topPerm clean env h
 
